@@ -53,11 +53,15 @@ def scaleRow (r : Rat) : List String → List Cell → List Cell
 
 def scaleFrame (r : Rat) (f : Frame) : Frame := ⟨f.cols, f.rows.map (scaleRow r f.cols)⟩
 
+/-- the osu preview point: a time — unless it is negative: `PreviewTime: -1` is osu's "no preview point" marker, not
+a time, so it belongs to "all other fields are unchanged" (open finding N13a: the code divides it like a time) -/
+def scalePreview (r : Rat) (p : Rat) : Rat := if p < 0 then p else p / r
+
 def scaleChart (g : Game) (r : Rat) (c : Chart) : Chart :=
   { c with
     lists := c.lists.map (fun p => (p.1, scaleFrame r p.2)),
     samples := if g = .osu then c.samples.map (scaleFrame r) else c.samples,
-    preview := if g = .osu then c.preview.map (· / r) else c.preview }
+    preview := if g = .osu then c.preview.map (scalePreview r) else c.preview }
 
 def scaleSet (k : SetKind) (g : Game) (r : Rat) (s : MapSet) : MapSet :=
   { s with
@@ -150,7 +154,7 @@ def samplesOk (f : Frame) : Bool :=
 def chartOk (g : Game) (c : Chart) : Bool :=
   listsOk (c.lists.map (·.2)) &&
   (if g = .osu then (match c.samples, c.preview with
-                     | some sm, some _ => samplesOk sm
+                     | some sm, some pv => samplesOk sm && decide (0 ≤ pv)
                      | _, _ => false) else true)
 
 def setOk (k : SetKind) (g : Game) (s : MapSet) : Bool :=
